@@ -15,14 +15,25 @@ ID = "C07"
 RULE = ("product explorer: (holder of an explicit array) x (all N! mode orders | every ordered factorisation of the "
         "cell count into <= 4 factors | every ordered selection of modes as old_modes x every factorisation of its size | "
         "squeeze), plus the composites permute;permute^-1 and reshape;reshape^-1.  Cells hold distinct signed integers. "
+        "Value/storage alphabet of the dense and sparse holders: float64 | int64 with every non-zero of magnitude "
+        "2**53 + odd (not representable in float64) | int8 | bool; results are compared exactly in the integer domain "
+        "(python int equality, no cast to float) and must keep the storage dtype of the receiver. "
         "Non-trivial: >= 2 cells, >= 1 non-zero and a non-identity map.")
-ASSUMPTIONS = ["reference index formulas in mc/refmodel.py (loops)", "exact integer values"]
+ASSUMPTIONS = ["reference index formulas in mc/refmodel.py (loops) and the dtype-preserving loops _reshape_f/_squeeze here",
+               "exact integer values (float64 for |v| < 2**53, int64 beyond)"]
 BOUNDS = {
     "quick": "shapes order<=3,size<=3,cells<=12 + (2,1,2,2),(2,2,2,2),(3,2,1,2); patterns none/one/some/all (complete "
-             "for <=4 cells); sparse stored orders all k! for k<=3; Kruskal rank 1-2, Tucker cores 1..2",
-    "thorough": "shapes order<=4,size<=3,cells<=24 (+(2,2,2,2,2) permute only); patterns complete for <=6 cells",
+             "for <=4 cells); sparse stored orders all k! for k<=3; Kruskal rank 1-2, Tucker cores 1..2; storage "
+             "float64 on everything, and int64-wide/int8/bool on every shape x (dense none/all/alternating | sparse every "
+             "pattern with >=1 non-zero in the first and last stored order)",
+    "thorough": "shapes order<=4,size<=3,cells<=24 (+(2,2,2,2,2) permute only); patterns complete for <=6 cells; "
+                "non-float storages as in quick (patterns complete for <=4 cells)",
 }
 CHUNK = 8
+
+
+WIDE = 2 ** 53   # |v| + WIDE is odd for the (odd) cell values, hence not a float64
+STORAGES = [{"dtype": "int64", "wide": True}, {"dtype": "int8"}, {"dtype": "bool"}]
 
 
 def _shapes(tier):
@@ -46,6 +57,19 @@ def gen_cases(tier, seed):
                 ords = ords[:2]
             for o in ords:
                 yield {"check": "maps", "h": dict(base, kind="sptensor", order=list(o))}
+        # value / storage alphabet beyond float64 (the holder family is orthogonal to it: first and last stored order)
+        alt = [1 if i % 2 == 0 else 0 for i in range(n)]
+        for st in STORAGES:
+            for pat in [[0] * n, [1] * n] + ([alt] if n >= 2 else []):
+                yield {"check": "maps", "h": dict({"kind": "tensor", "shape": list(s), "pat": pat, "vseed": seed}, **st)}
+            for pat in space.patterns(n, 4):
+                k = sum(pat)
+                if k == 0:
+                    continue    # an empty sparse tensor stores no value at all
+                ords = space.orders(k, 3)
+                for o in ([ords[0]] if len(ords) == 1 else [ords[0], ords[-1]]):
+                    yield {"check": "maps", "h": dict({"kind": "sptensor", "shape": list(s), "pat": list(pat),
+                                                       "vseed": seed, "order": list(o)}, **st)}
         if n >= 2:
             yield {"check": "maps", "h": {"kind": "tensor", "shape": list(s), "vseed": seed, "grown": True}}
         # dense with a zero pattern too (one representative)
@@ -86,9 +110,100 @@ def _inv(order):
     return inv
 
 
+# ---- value / storage alphabet: reference array in the storage dtype, fresh holder, exact comparison
+def _ref(hd):
+    """The array the holder denotes, in its storage dtype (int64 beyond 2**53 for "wide", so never through float)."""
+    A = H.ref_array(hd)
+    dt = hd.get("dtype")
+    if not dt:
+        return A
+    if hd.get("wide"):
+        W = np.zeros(A.shape, dtype=np.int64)
+        for sub in rm.cells(A.shape):
+            v = int(A[sub])
+            W[sub] = 0 if v == 0 else (v + WIDE if v > 0 else v - WIDE)
+        return W
+    if dt == "bool":
+        return A != 0
+    W = A.astype(np.dtype(dt))
+    assert rm.same(W, A), (dt, A.tolist())      # the storage dtype must hold the values exactly
+    return W
+
+
+def _build(hd):
+    if not hd.get("wide"):
+        return H.build(hd)
+    import pyttb as ttb
+
+    W = _ref(hd)
+    if hd["kind"] == "tensor":
+        return ttb.tensor(np.asfortranarray(W))
+    subs, vals = H.sp_parts(W.shape, [int(v) for v in rm.vals_f(W)], hd.get("order"))
+    return ttb.sptensor(np.array(subs, dtype=int).reshape(len(subs), W.ndim),
+                        np.array(vals, dtype=np.int64).reshape(-1, 1), W.shape)
+
+
+def _reshape_f(a, newshape):
+    """Equal F-order linear index, dtype kept (rm.reshape_f goes through float64)."""
+    a = np.asarray(a)
+    newshape = tuple(int(x) for x in newshape)
+    vals = rm.vals_f(a)
+    y = np.zeros(newshape, dtype=a.dtype)
+    for l, sub in enumerate(rm.cells(newshape)):
+        y[sub] = vals[l]
+    return y
+
+
+def _squeeze(a):
+    a = np.asarray(a)
+    keep = [x for x in a.shape if x != 1]
+    return _reshape_f(a, keep) if keep else np.asarray(a.reshape(())[()])
+
+
+def _same(got, want):
+    """rm.same, but exact in the integer domain: python int/float equality, no cast of integers to float64."""
+    got, want = np.asarray(got), np.asarray(want)
+    if got.shape != want.shape:
+        return False
+    if got.dtype.kind in "iu" or want.dtype.kind in "iu":
+        return got.tolist() == want.tolist()
+    return rm.same(got, want)
+
+
+def _storage(obj):
+    """dtype of the stored values (None when nothing is stored or for other kinds of result)."""
+    knd = O.kind_of(obj)
+    if knd == "tensor":
+        return np.asarray(obj.data).dtype
+    if knd == "sptensor" and isinstance(obj.vals, np.ndarray) and obj.vals.size:
+        return obj.vals.dtype
+    return None
+
+
+def _expect(p, op, res, want, variant="", kind=None, rdt=None):
+    """Probe.expect_array with the exact comparison; rdt = storage dtype of the receiver, which the result must keep."""
+    try:
+        got = O.dense_of(res)
+    except Exception as e:  # noqa: BLE001
+        p.ctx.fail(op, "malformed_result", f"{type(e).__name__}: {e}", variant=variant, case=p.case)
+        return False
+    if kind is not None and O.kind_of(res) != kind:
+        p.ctx.fail(op, "wrong_type", f"{O.kind_of(res)} != {kind}", variant=variant, case=p.case)
+        return False
+    if not _same(got, want):
+        p.ctx.fail(op, "wrong_value", f"got={np.asarray(got).tolist()} want={np.asarray(want).tolist()}",
+                   variant=variant, case=p.case)
+        return False
+    sdt = _storage(res)
+    if rdt is not None and sdt is not None and sdt != rdt:
+        p.ctx.fail(op, "wrong_dtype", f"values stored as {sdt}, receiver stored {rdt}", variant=variant, case=p.case)
+        return False
+    return True
+
+
 def _run_maps(case, ctx):
     hd = case["h"]
-    A = H.ref_array(hd)
+    A = _ref(hd)
     shape = A.shape
     N = len(shape)
     kind = hd["kind"]
@@ -96,13 +211,14 @@ def _run_maps(case, ctx):
     ctx.state()
     only = case.get("only")
     nontrivial = A.size >= 2 and k >= 1
+    rdt = _storage(_build(hd))      # storage dtype of the receiver as constructed
     # ---- permute
     perms = [tuple(case["order_arg"])] if "order_arg" in case else list(itertools.permutations(range(N)))
     if only in (None, "permute") and case.get("sub") in (None, "permute"):
         for order in perms:
             sub = dict(case, sub="permute", order_arg=list(order))
             p = Probe(ctx, sub)
-            X = H.build(hd)
+            X = _build(hd)
             want = rm.permute(A, order)
             ok, Y = p.call(kind + ".permute", lambda: X.permute(np.array(order, dtype=int)))
             if not ok:
@@ -111,17 +227,17 @@ def _run_maps(case, ctx):
                 continue
             if nontrivial and list(order) != sorted(order):
                 ctx.nontriv()
-            good = p.expect_array(kind + ".permute", Y, want, kind=kind)
+            good = _expect(p, kind + ".permute", Y, want, kind=kind, rdt=rdt)
             good &= p.expect(kind + ".permute", O.pyshape(Y.shape) == want.shape, "wrong_shape", str(Y.shape))
             ctx.outcome(want)
             if good:
                 ok, Z = p.call(kind + ".permute", lambda: Y.permute(np.array(_inv(order), dtype=int)), variant="inverse")
                 if ok and _wf(p, kind + ".permute", Z, "inverse"):
-                    p.expect_array(kind + ".permute", Z, A, variant="inverse", kind=kind)
+                    _expect(p, kind + ".permute", Z, A, variant="inverse", kind=kind, rdt=rdt)
             # list form of the argument
-            ok, Y2 = p.call(kind + ".permute", lambda: H.build(hd).permute(list(order)), variant="list_arg")
+            ok, Y2 = p.call(kind + ".permute", lambda: _build(hd).permute(list(order)), variant="list_arg")
             if ok and _wf(p, kind + ".permute", Y2, "list_arg"):
-                p.expect_array(kind + ".permute", Y2, want, variant="list_arg")
+                _expect(p, kind + ".permute", Y2, want, variant="list_arg", rdt=rdt)
     # ---- reshape (all modes)
     n = A.size
     if only is None and case.get("sub") in (None, "reshape"):
@@ -129,19 +245,19 @@ def _run_maps(case, ctx):
         for tgt in targets:
             sub = dict(case, sub="reshape", target=list(tgt))
             p = Probe(ctx, sub)
-            X = H.build(hd)
-            want = rm.reshape_f(A, tgt)
+            X = _build(hd)
+            want = _reshape_f(A, tgt)
             ok, Y = p.call(kind + ".reshape", lambda: X.reshape(tuple(tgt)))
             if not ok or not _wf(p, kind + ".reshape", Y, ""):
                 continue
             if nontrivial and tuple(tgt) != shape:
                 ctx.nontriv()
-            good = p.expect_array(kind + ".reshape", Y, want, kind=kind)
+            good = _expect(p, kind + ".reshape", Y, want, kind=kind, rdt=rdt)
             good &= p.expect(kind + ".reshape", O.pyshape(Y.shape) == tuple(tgt), "wrong_shape", str(Y.shape))
             if good:
                 ok, Z = p.call(kind + ".reshape", lambda: Y.reshape(shape), variant="inverse")
                 if ok and _wf(p, kind + ".reshape", Z, "inverse"):
-                    p.expect_array(kind + ".reshape", Z, A, variant="inverse", kind=kind)
+                    _expect(p, kind + ".reshape", Z, A, variant="inverse", kind=kind, rdt=rdt)
     # ---- sparse reshape of a sorted proper subset of modes
     if kind == "sptensor" and only is None and case.get("sub") in (None, "reshape_subset"):
         if "modes" in case:
@@ -160,12 +276,12 @@ def _run_maps(case, ctx):
         for modes, tgt in combos:
             sub = dict(case, sub="reshape_subset", modes=list(modes), target=list(tgt))
             p = Probe(ctx, sub)
-            X = H.build(hd)
+            X = _build(hd)
             keep = [d for d in range(N) if d not in modes]
             # reference: move the reshaped modes to the end, then reshape that trailing block in F order
             moved = rm.permute(A, keep + list(modes))
             kshape = [shape[d] for d in keep]
-            want = np.zeros(kshape + list(tgt))
+            want = np.zeros(kshape + list(tgt), dtype=A.dtype)
             mshape = [shape[d] for d in modes]
             for subk in (rm.cells(tuple(kshape)) if kshape else [()]):
                 for l, subm in enumerate(rm.cells(tuple(mshape))):
@@ -175,30 +291,30 @@ def _run_maps(case, ctx):
                 continue
             if nontrivial:
                 ctx.nontriv()
-            p.expect_array("sptensor.reshape", Y, want, variant="subset", kind="sptensor")
+            _expect(p, "sptensor.reshape", Y, want, variant="subset", kind="sptensor", rdt=rdt)
             p.expect("sptensor.reshape", O.pyshape(Y.shape) == want.shape, "wrong_shape", str(Y.shape), "subset")
             if len(modes) == 1:
-                ok, Y = p.call("sptensor.reshape", lambda: H.build(hd).reshape(tuple(tgt), int(modes[0])), variant="subset_int")
+                ok, Y = p.call("sptensor.reshape", lambda: _build(hd).reshape(tuple(tgt), int(modes[0])), variant="subset_int")
                 if ok and _wf(p, "sptensor.reshape", Y, "subset_int"):
-                    p.expect_array("sptensor.reshape", Y, want, variant="subset_int")
+                    _expect(p, "sptensor.reshape", Y, want, variant="subset_int", rdt=rdt)
     # ---- squeeze
     if only is None and case.get("sub") in (None, "squeeze"):
         sub = dict(case, sub="squeeze")
         p = Probe(ctx, sub)
-        X = H.build(hd)
-        want = rm.squeeze(A)
+        X = _build(hd)
+        want = _squeeze(A)
         ok, Y = p.call(kind + ".squeeze", lambda: X.squeeze())
         if ok and _wf(p, kind + ".squeeze", Y, ""):
             if nontrivial and 1 in shape:
                 ctx.nontriv()
             if np.asarray(want).ndim == 0:
                 try:
-                    good = rm.same(np.asarray(O.value_of(Y)).reshape(()), np.asarray(want))
+                    good = _same(np.asarray(O.value_of(Y)).reshape(()), np.asarray(want))
                 except Exception:  # noqa: BLE001
                     good = False
                 p.expect(kind + ".squeeze", good, "wrong_value", f"{Y!r} want {want!r}", "scalar")
             else:
-                p.expect_array(kind + ".squeeze", Y, want, kind=kind)
+                _expect(p, kind + ".squeeze", Y, want, kind=kind, rdt=rdt)
                 p.expect(kind + ".squeeze", O.pyshape(Y.shape) == want.shape, "wrong_shape", str(Y.shape))
 
 
